@@ -30,7 +30,7 @@ from .model import MTree, model_filter
 from .sched import Deadlock, Scheduler, StepCap, swap_locks
 from .world import HarnessError, InjectedFault, Violation, real_children
 
-READER_OPS = ("save", "save_path", "copy", "filtered", "copy_to", "to_dict_list", "to_dotfile",
+READER_OPS = ("save", "save_vm", "save_path", "copy", "filtered", "copy_to", "to_dict_list", "to_dotfile",
               "with_list")
 
 
@@ -83,7 +83,7 @@ def expected_of(op_kind: str, mclone: MTree, typed: bool):
         if not c:
             return ("EXC", "ValueError")  # documented: nothing to copy
         return canon_names(c)
-    if op_kind in ("copy", "save", "save_path"):
+    if op_kind in ("copy", "save", "save_vm", "save_path"):
         return c
     if op_kind == "to_dict_list":
         return canon_names(c)
@@ -269,10 +269,14 @@ def c18_run(base_seed, index, tier, nt, *, forced=None, cfg_override=None,
             v = snap_pred_verdict(node.name)
             return nt.SelectBranch() if v == "SEL" else False
 
-        if kind == "save":
+        if kind in ("save", "save_vm"):
             fp = S.SimStream(fail_at=fault_at if fault_cb == "io" else None)
+            kw = {}
+            if kind == "save_vm":
+                # caller-supplied value map without a "kind" entry (typed trees add it)
+                kw["value_map"] = {"type": ["int", "tup"]}
             try:
-                tree.save(fp, mapper=ser)
+                tree.save(fp, mapper=ser, **kw)
             except OSError:
                 if fp.failed:
                     raise InjectedFault("io") from None
@@ -397,7 +401,8 @@ def c18_run(base_seed, index, tier, nt, *, forced=None, cfg_override=None,
                 kind = rng.choice(cfg["reader_ops"])
                 fault = None
                 if cfg["p_fault"] and rng.random() < cfg["p_fault"]:
-                    cbs = {"save": ["mapper", "io"], "save_path": ["mapper"],
+                    cbs = {"save": ["mapper", "io"], "save_vm": ["mapper", "io"],
+                           "save_path": ["mapper"],
                            "to_dict_list": ["mapper"],
                            "filtered": ["pred"], "to_dotfile": ["io"]}.get(kind)
                     if cbs:
